@@ -1,9 +1,143 @@
-(* C17 property theorems only: each closed by `exact <lemma>` with Print Assumptions beneath. *)
-From Coq Require Import ZArith QArith List Bool.
-Require Import MV.Lib.Base MV.C17.Gen MV.C17.Model MV.C17.Proofs_Gate.
-Open Scope Z_scope.
+(* C17 property theorems only: each closed by `exact <lemma>` with Print Assumptions beneath.
 
+   FULL fold-free statement (Tutte 1963 / Floater 1997), written down and NOT proved here:
+     for every triangulated disk (oriented manifold face list fs over nv vertices, connected, V-E+F = 1, one border
+     loop listed in cycle order by bnd, interior vertices listed by free), every assignment (Ub, Vb) of the border
+     vertices, in cycle order, to pairwise distinct points met in cyclic order on a convex closed curve, every weight
+     choice whose face-edge weights at interior vertices are strictly positive (uniform: always; cotangent: when
+     positive), and every solution U, V of the partitioned system (is_solution_U, is_solution_V):
+        fold_free (read0 (vertex_writes free bnd U V Ub Vb)) fs = true,
+     i.e. all triangles have one strict orientation - on a target that is convex but not strictly convex (the square)
+     provided no triangle has its three vertices on one side of the target.
+   What IS proved: C17_fold_free_partial below (the certificate accepted by a run is an exact solution and the boolean
+   orientation test means what it says), together with border placement, the harmonic property, the maximum principle
+   and the agreement of the outputs.  The run-time orientation test on generated disks is evidence, not proof. *)
+From Coq Require Import ZArith QArith Qreals Rdefinitions List Bool.
+Import ListNotations.
+Require Import MV.Lib.Base MV.C17.Gen MV.C17.Model.
+Require Import MV.C17.Proofs_Gate MV.C17.Proofs_Border MV.C17.Proofs_Circle MV.C17.Proofs_Lap MV.C17.Proofs_Harmonic
+               MV.C17.Proofs_Max MV.C17.Proofs_Scatter MV.C17.Proofs_Cert MV.C17.Proofs.
+Open Scope Z_scope.
+Open Scope Q_scope.
+
+(* rejected iff V - E + F <> 1 (generated gate and generated Euler characteristic, model's edge count) *)
 Theorem C17_gate : forall nv fs,
-  rejected nv fs = true <-> nv - n_edges fs + Z.of_nat (length fs) <> 1.
+  rejected nv fs = true <-> (nv - n_edges fs + Z.of_nat (length fs) <> 1)%Z.
 Proof. exact gate_model. Qed.
 Print Assumptions C17_gate.
+
+(* square, EVERY border length n >= 3: border vertex v sits at the perimeter curve's point of parameter sq_param n v
+   in [0,4); the parameter is strictly increasing along the border; the curve is injective and lies on the square *)
+Theorem C17_border_placement_square : forall n : Z, (3 <= n)%Z ->
+  (forall v, (0 <= v < n)%Z ->
+     sq_U n v == fst (sq_curve (sq_param n v)) /\ sq_V n v == snd (sq_curve (sq_param n v)) /\
+     0 <= sq_param n v /\ sq_param n v < 4) /\
+  (forall v w, (0 <= v)%Z -> (v < w)%Z -> (w < n)%Z -> sq_param n v < sq_param n w) /\
+  (forall s t, 0 <= s -> s < 4 -> 0 <= t -> t < 4 ->
+     fst (sq_curve s) == fst (sq_curve t) -> snd (sq_curve s) == snd (sq_curve t) -> s == t) /\
+  (forall s, 0 <= s -> s < 4 ->
+     let p := sq_curve s in
+     ((fst p == 0 \/ fst p == 1) /\ 0 <= snd p /\ snd p <= 1) \/ ((snd p == 0 \/ snd p == 1) /\ 0 <= fst p /\ fst p <= 1)).
+Proof. exact border_placement_square. Qed.
+Print Assumptions C17_border_placement_square.
+
+(* ... hence pairwise distinct positions *)
+Theorem C17_border_placement_square_distinct : forall n v w : Z,
+  (3 <= n)%Z -> (0 <= v < n)%Z -> (0 <= w < n)%Z -> v <> w ->
+  ~ (sq_U n v == sq_U n w /\ sq_V n v == sq_V n w).
+Proof. exact sq_distinct. Qed.
+Print Assumptions C17_border_placement_square_distinct.
+
+(* circle: turn fractions i/n, strictly increasing in [0,1); U = cos, V = sin, radius 1 *)
+Theorem C17_border_placement_circle : forall n i j : Z, (0 < n)%Z -> (0 <= i)%Z -> (i < j)%Z -> (j < n)%Z ->
+  (0 <= circle_turn n i /\ circle_turn n i < circle_turn n j /\ circle_turn n j < 1) /\
+  circle_turn n i == inject_Z i / inject_Z n /\
+  circle_U_part = PReal /\ circle_V_part = PImag /\ circle_radius == 1.
+Proof. exact border_placement_circle. Qed.
+Print Assumptions C17_border_placement_circle.
+
+(* ... and the circle is injective on [0,1): pairwise distinct points (over R) *)
+Theorem C17_border_placement_circle_distinct : forall n i j : Z, (0 < n)%Z -> (0 <= i)%Z -> (i < j)%Z -> (j < n)%Z ->
+  circle_point (Q2R (circle_turn n i)) <> circle_point (Q2R (circle_turn n j)).
+Proof. exact circle_distinct. Qed.
+Print Assumptions C17_border_placement_circle_distinct.
+
+(* custom: row k of the array is the position of border vertex number k, column 0 = u, column 1 = v *)
+Theorem C17_border_placement_custom : forall rows : list (list Q),
+  border_custom rows = map (fun r => (znth r 0%Z 0, znth r 1%Z 0)) rows.
+Proof. exact border_placement_custom. Qed.
+Print Assumptions C17_border_placement_custom.
+
+(* ANY solution of the partitioned system puts every interior vertex at the weighted average of its neighbours:
+   (sum of weights) * p_i = sum of weight * p_j over the face edges at i, weights = minus the off-diagonal entries *)
+Theorem C17_harmonic : forall fs use_cotan cot free bnd U V Ub Vb,
+  NoDup (free ++ bnd) -> length Ub = length bnd -> length Vb = length bnd ->
+  let T := lap_triplets fs use_cotan cot in
+  is_solution_U T free bnd Ub Vb U -> is_solution_V T free bnd Ub Vb V ->
+  forall i, In i free ->
+    let p := pos free bnd U V Ub Vb in
+    let N := nbrs 0 fs (cot_opt use_cotan cot) i in
+    let W := nsum N (fun _ w => w) in
+    W * fst (p i) == nsum N (fun j w => w * fst (p j)) /\ W * snd (p i) == nsum N (fun j w => w * snd (p j)).
+Proof. exact harmonic_average. Qed.
+Print Assumptions C17_harmonic.
+
+(* the assembled Laplacian row IS that weighted difference sum (from the generated coefficient pattern) *)
+Theorem C17_harmonic_laplacian_rows : forall fs t cot k f,
+  rowdot (row_of (lap_from t fs cot) k) f == nsum (nbrs t fs cot k) (fun j w => w * (f k - f j)).
+Proof. exact laplacian_rows. Qed.
+Print Assumptions C17_harmonic_laplacian_rows.
+
+(* uniform weights: every face edge weighs 1/2 (positive) *)
+Theorem C17_harmonic_uniform_weights : forall fs cot k j w,
+  In (j, w) (nbrs 0 fs (cot_opt false cot) k) -> w = (1 # 2).
+Proof. exact harmonic_uniform_weights. Qed.
+Print Assumptions C17_harmonic_uniform_weights.
+
+(* per-corner and per-vertex storage carry the same coordinates; so do both flat meshes *)
+Theorem C17_outputs_agree : forall fs free bnd U V Ub Vb t f k,
+  nth_error fs t = Some f -> (0 <= k < 3)%Z ->
+  read0 (corner_writes fs free bnd U V Ub Vb) (3 * Z.of_nat t + k)%Z
+  = read0 (vertex_writes free bnd U V Ub Vb) (face_vertex f k).
+Proof. exact outputs_agree. Qed.
+Print Assumptions C17_outputs_agree.
+
+Theorem C17_outputs_agree_flat : forall fs free bnd U V Ub Vb idx f k,
+  nth_error fs idx = Some f -> (0 <= k < 3)%Z ->
+  let pv := read0 (vertex_writes free bnd U V Ub Vb) in
+  let pc := read0 (corner_writes fs free bnd U V Ub Vb) in
+  let v := face_vertex f k in
+  read0 (flat_from 0 fs false pv) v = pv v /\ read0 (flat_from 0 fs true pc) v = pv v.
+Proof. exact flat_agree. Qed.
+Print Assumptions C17_outputs_agree_flat.
+
+(* discrete maximum principle (part of the fold-free argument): positive weights + every interior vertex linked to
+   the border => every interior vertex lies in every closed half-plane containing the border positions *)
+Theorem C17_max_principle_partial : forall fs use_cotan cot free bnd U V Ub Vb,
+  NoDup (free ++ bnd) -> length Ub = length bnd -> length Vb = length bnd ->
+  let T := lap_triplets fs use_cotan cot in
+  is_solution_U T free bnd Ub Vb U -> is_solution_V T free bnd Ub Vb V ->
+  let p := pos free bnd U V Ub Vb in
+  let N := fun i => nbrs 0 fs (cot_opt use_cotan cot) i in
+  (forall i j w, In i free -> In (j, w) (N i) -> 0 < w) ->
+  (forall i j w, In i free -> In (j, w) (N i) -> In j free \/ In j bnd) ->
+  (forall i, In i free -> linked N bnd i) ->
+  forall a b g : Q,
+    (forall x, In x bnd -> a * fst (p x) + b * snd (p x) <= g) ->
+    forall i, In i free -> a * fst (p i) + b * snd (p i) <= g.
+Proof. exact max_principle. Qed.
+Print Assumptions C17_max_principle_partial.
+
+(* PARTIAL (Tutte/Floater's theorem itself is not proved): what a run's accepted certificate establishes *)
+Theorem C17_fold_free_partial : forall fs use_cotan cot free bnd Ub Vb D NU NV,
+  let T := lap_triplets fs use_cotan cot in
+  check_cert_with rhs_U T free bnd (comp_list U_border_data [] [] Ub Vb) D NU = true ->
+  check_cert_with rhs_V T free bnd (comp_list V_border_data [] [] Ub Vb) D NV = true ->
+  let U := cert_values D NU in
+  let V := cert_values D NV in
+  let p := read0 (vertex_writes free bnd U V Ub Vb) in
+  fold_free p fs = true ->
+  is_solution_U T free bnd Ub Vb U /\ is_solution_V T free bnd Ub Vb V /\
+  ((forall f, In f fs -> 0 < face_det p f) \/ (forall f, In f fs -> face_det p f < 0)).
+Proof. exact fold_free_partial. Qed.
+Print Assumptions C17_fold_free_partial.
